@@ -1,9 +1,14 @@
 """C02 - encoder output is byte-for-byte the specification's encoding."""
 from vf.e1 import E1Runner
-from . import prim
+from vf import ch
+from . import prim, l2
 
 
 def run(run, tier):
     r = E1Runner(run)
     prim.run_group(run, r, prim.ENC_HARNESSES)
-    run.bounds += ["layer 1: every int64 / int32 / double bit pattern / payload length < 2^62, all values (z3 BV80 + no-overflow VCs)"]
+    l2.validate_standins(run, tier, run.seed, "spec")
+    ch.run_harnesses(run, "C02", l2.harnesses(tier, run.seed, "spec"), timeout=120 if tier == "quick" else 400)
+    l2.describe(run, tier)
+    run.bounds += ["layer 1 (E1): every int64 / int32 / double bit pattern / payload length < 2^62, all values "
+                   "(z3 BV80 + no-overflow VCs)"]
